@@ -192,7 +192,7 @@ def seed_oracle(spec):
 
 
 SUBS = [
-    Sub('jackknife', jack_case, jack_oracle, {'quick': 300, 'thorough': 5000}, {'quick': 4, 'thorough': 16}, doc='leave-one-out export, variance identity, import round trip'),
-    Sub('bootstrap', boot_case, boot_oracle, {'quick': 250, 'thorough': 4000}, {'quick': 4, 'thorough': 16}, doc='export with supplied tables, import with full-rank tables, too few samples raise'),
-    Sub('seeding', seed_case, seed_oracle, {'quick': 200, 'thorough': 3000}, {'quick': 3, 'thorough': 8}, doc='default name-seeded tables: reproducible, saved, chain-consistent'),
+    Sub('jackknife', jack_case, jack_oracle, {'quick': 600, 'thorough': 5000}, {'quick': 4, 'thorough': 16}, doc='leave-one-out export, variance identity, import round trip'),
+    Sub('bootstrap', boot_case, boot_oracle, {'quick': 500, 'thorough': 4000}, {'quick': 4, 'thorough': 16}, doc='export with supplied tables, import with full-rank tables, too few samples raise'),
+    Sub('seeding', seed_case, seed_oracle, {'quick': 400, 'thorough': 3000}, {'quick': 3, 'thorough': 8}, doc='default name-seeded tables: reproducible, saved, chain-consistent'),
 ]
